@@ -1,24 +1,18 @@
-use nvh::props::c02::Case;
-use nvh::tools::rig::*;
-use nuts_rs::verif::Point;
-fn nrm(v:&[f64])->f64{v.iter().map(|x|x*x).sum::<f64>().sqrt()}
+use nvh::engine::Part;
+use nvh::props::c07::{Closed, ClosedCase};
 fn main() {
-    let p = std::env::args().nth(1).unwrap();
-    let v: serde_json::Value = serde_json::from_str(&std::fs::read_to_string(p).unwrap()).unwrap();
-    let c: Case = serde_json::from_value(v["case"].clone()).unwrap();
-    let mut rig = build_rig(dens_for(&c.dens), &c.trans, c.kind);
-    rig.set_step(c.eps);
-    let v0: Vec<f64> = c.v0.clone();
-    let mut st = rig.init_state(&c.x0).unwrap();
-    rig.init_traj(&mut st, &v0).unwrap();
-    let s0 = snap(rig.math(), &st);
-    println!("s0 |x|={:e} |v|={:e} |y|={:e} E={:e}", nrm(&s0.x), nrm(&s0.v), nrm(&s0.y), s0.energy);
-    let Leap::Ok(n1) = rig.leapfrog(&st, c.forward, 1.0, s0.energy, f64::INFINITY) else { panic!() };
-    let s1=snap(rig.math(), &n1);
-    println!("s1 |x|={:e} |v|={:e} |y|={:e} E={:e}", nrm(&s1.x), nrm(&s1.v), nrm(&s1.y), s1.energy);
-    let Leap::Ok(n2) = rig.leapfrog(&n1, !c.forward, 1.0, s0.energy, f64::INFINITY) else { panic!() };
-    let s2=snap(rig.math(), &n2);
-    println!("s2 |x|={:e} |v|={:e} |y|={:e} E={:e}", nrm(&s2.x), nrm(&s2.v), nrm(&s2.y), s2.energy);
-    if let TransSpec::LowRank{stds,vals,..}=&c.trans { println!("stds {:?}\nvals {:?}", stds, vals); }
-    let _ = st.point().energy();
+    nvh::engine::install_quiet_panic_hook();
+    for adam in [false, true] {
+        for lowrank in [false, true] {
+            let mut devs = vec![];
+            for i in 0..240u64 {
+                let c = ClosedCase { log10_scale: -4.0 + 8.0 * ((i * 37 % 240) as f64 / 240.0), dim: 2 + (i as usize * 7) % 19, adam, lowrank, target: 0.6 + 0.3 * ((i * 13 % 240) as f64 / 240.0), seed: i * 7919 + 1 };
+                let o = Closed.check(&c);
+                let msg = o.failure.as_ref().map(|f| f.message.clone()).unwrap_or_default();
+                if let Some(p) = msg.find("acceptance ") { let v: f64 = msg[p + 11..].trim().parse().unwrap_or(f64::NAN); devs.push((v - c.target, c.target, c.dim)); }
+            }
+            let mut a: Vec<f64> = devs.iter().map(|d| d.0).collect(); a.sort_by(|x,y| x.partial_cmp(y).unwrap());
+            println!("adam={adam} lowrank={lowrank}: n={} min {:+.3} p5 {:+.3} median {:+.3} p95 {:+.3} max {:+.3}; worst {:?}", a.len(), a[0], a[a.len()/20], a[a.len()/2], a[a.len()*19/20], a[a.len()-1], devs.iter().filter(|d| d.0.abs()>0.1).map(|d| format!("{:+.2}@t{:.2}d{}", d.0, d.1, d.2)).collect::<Vec<_>>());
+        }
+    }
 }
